@@ -927,6 +927,12 @@ func ensureServiceTxn(tx WriteTxn, idx uint64, node string, preserveIndexes bool
 				return err
 			}
 		}
+	} else if e, ok := existing.(*structs.ServiceNode); ok && e.ServiceKind == structs.ServiceKindConnectProxy {
+		// The instance used to be a sidecar and is registered as something else
+		// now: the upstreams it declared are gone with it.
+		if err := cleanupMeshTopology(tx, idx, e); err != nil {
+			return fmt.Errorf("failed updating upstream/downstream association")
+		}
 	}
 
 	if svc.PeerName == "" {
